@@ -12,5 +12,6 @@ CONSTANTS
   TxShapes = "small"
   TreeIn <- TreeA
   Threads <- ThreadsA
+  MaxOrphans = 200
   Prog <- ProgA
 INVARIANTS FinalSequential
